@@ -12,7 +12,8 @@ use rrtk::*;
 use rrtk_conform::*;
 
 fn b(x: f32) -> String {
-    format!("{:08x}", x.to_bits())
+    // (sign and payload of a NaN depend on the compiler's operand order and carry no meaning)
+    if x.is_nan() { "nan".into() } else { format!("{:08x}", x.to_bits()) }
 }
 fn bq(q: Quantity) -> String {
     b(q.value)
